@@ -1399,7 +1399,17 @@ func (n *toDateEval) Eval(env Env) (types.Value, error) {
 	if err != nil {
 		return zeroValue(), err
 	}
-	return types.NewDatetimeFromMillis(lhs.Milliseconds() - (lhs.Milliseconds() % consts.MillisPerDay)), nil
+	// toDate rounds down to the start of the day, also before 1970: Go's %
+	// truncates toward zero, so a negative remainder is moved up by one day.
+	rem := lhs.Milliseconds() % consts.MillisPerDay
+	if rem < 0 {
+		rem += consts.MillisPerDay
+	}
+	res, ok := checkedSubI64(types.Long(lhs.Milliseconds()), types.Long(rem))
+	if !ok {
+		return zeroValue(), fmt.Errorf("%w while attempting to compute toDate", errOverflow)
+	}
+	return types.NewDatetimeFromMillis(int64(res)), nil
 }
 
 type toTimeEval struct {
@@ -1415,7 +1425,12 @@ func (n *toTimeEval) Eval(env Env) (types.Value, error) {
 	if err != nil {
 		return zeroValue(), err
 	}
-	return types.NewDurationFromMillis(lhs.Milliseconds() % consts.MillisPerDay), nil
+	// toTime is the non-negative offset from the start of the day (see toDate).
+	rem := lhs.Milliseconds() % consts.MillisPerDay
+	if rem < 0 {
+		rem += consts.MillisPerDay
+	}
+	return types.NewDurationFromMillis(rem), nil
 }
 
 type toMillisecondsEval struct {
